@@ -17,7 +17,12 @@ def build_term(t):
            "MIN": an.Min, "MAX": an.Max, "AVG": an.Avg}[fname]
     f = cls(*[tf.build(a) for a in args])
     if part:
-        f = f.over(*[tf.build(p) for p in part])
+        # PARTITION BY built by chained over() calls: one call per term for an even number of terms, over(p0).over(rest...)
+        # for an odd number (so a single call with several terms is exercised as well); ORDER BY is one orderby() per term
+        ps = [tf.build(p) for p in part]
+        groups = [[x] for x in ps] if len(ps) % 2 == 0 else [ps[:1]] + ([ps[1:]] if ps[1:] else [])
+        for g in groups:
+            f = f.over(*g)
     for o, d in obs:
         f = f.orderby(tf.build(o), **({"order": getattr(Order, d)} if d else {}))
     if frame is not None:
@@ -233,6 +238,10 @@ def render(spec, order=None):
             if vals is not None:
                 term = tf.build(t[1])
                 return term.notin(vals) if t[3] else term.isin(vals)
+        # a column of a source in the subscript spelling: table["col"], subquery["col"], aliased_query["col"]
+        if t[0] == "field" and t[2] is not None and b.coin():
+            f = tf.mk_table(t[2])[t[1]]
+            return f.as_(t[3]) if t[3] is not None else f
         return orig(t)
     tf.build = build_with_api_forms
     try:
